@@ -37,6 +37,85 @@ pub fn judge(p: &cairo_lang_sierra::program::Program) -> Result<Option<bool>, (S
     }
 }
 
+/// A generated "diamond": a branch on a felt252, two arms built from a small set of operations on
+/// array (not duplicatable) and felt252 variables, a merge, and a tail that stores and returns a
+/// chosen set of variables. Arms are generated independently, so their live sets agree only
+/// sometimes; whenever the compiler accepts a diamond, the independent checker must too.
+pub fn gen_diamond(ch: &mut Choices) -> String {
+    const ARR: &str = "Array<felt252>";
+    // Variables: 0 cond, 1-2 arrays (parameters), 3 felt252 (parameter); new ones get 10..13.
+    fn arm(ch: &mut Choices, out: &mut Vec<String>) -> std::collections::BTreeMap<u32, bool> {
+        // id -> is_array, for what is live at the end of the arm.
+        let mut live: std::collections::BTreeMap<u32, bool> = [(1, true), (2, true), (3, false)].into_iter().collect();
+        let n = ch.below(4);
+        for _ in 0..n {
+            let fresh = 10 + ch.below(3) as u32;
+            let arrays: Vec<u32> = live.iter().filter(|(_, a)| **a).map(|(k, _)| *k).collect();
+            match ch.below(6) {
+                0 if !live.contains_key(&fresh) => {
+                    out.push(format!("array_new<felt252>() -> ([{fresh}]);"));
+                    out.push(format!("store_temp<{ARR}>([{fresh}]) -> ([{fresh}]);"));
+                    live.insert(fresh, true);
+                }
+                1 if !arrays.is_empty() && !live.contains_key(&fresh) => {
+                    let x = arrays[ch.below(arrays.len())];
+                    out.push(format!("store_temp<{ARR}>([{x}]) -> ([{fresh}]);"));
+                    live.remove(&x);
+                    live.insert(fresh, true);
+                }
+                2 if !arrays.is_empty() => {
+                    let x = arrays[ch.below(arrays.len())];
+                    out.push(format!("drop<{ARR}>([{x}]) -> ();"));
+                    live.remove(&x);
+                }
+                3 if live.contains_key(&3) && !live.contains_key(&fresh) => {
+                    out.push(format!("dup<felt252>([3]) -> ([3], [{fresh}]);"));
+                    out.push(format!("store_temp<felt252>([{fresh}]) -> ([{fresh}]);"));
+                    live.insert(fresh, false);
+                }
+                4 if live.contains_key(&3) => {
+                    out.push("drop<felt252>([3]) -> ();".to_string());
+                    live.remove(&3);
+                }
+                _ => {}
+            }
+        }
+        live
+    }
+    let mut a1 = vec![];
+    let l1 = arm(ch, &mut a1);
+    let mut a2 = vec![];
+    let l2 = arm(ch, &mut a2);
+    // The tail uses a subset of the union of what the arms leave.
+    let mut union: std::collections::BTreeMap<u32, bool> = l1.clone();
+    union.extend(l2.iter().map(|(k, v)| (*k, *v)));
+    let used: Vec<(u32, bool)> = union.iter().filter(|_| ch.chance(3, 4)).map(|(k, v)| (*k, *v)).collect();
+    let mut body = vec!["felt252_is_zero([0]) { fallthrough() ARM2([9]) };".to_string(), "branch_align() -> ();".to_string()];
+    body.extend(a1);
+    body.push("jump() { MERGE() };".to_string());
+    let arm2_at = body.len();
+    body.push("branch_align() -> ();".to_string());
+    body.push("drop<NonZero<felt252>>([9]) -> ();".to_string());
+    body.extend(a2);
+    let merge_at = body.len();
+    // Everything live and unused is dropped (by the first arm's view), the rest is stored and returned.
+    for (k, is_arr) in &union {
+        if !used.iter().any(|(u, _)| u == k) {
+            body.push(format!("drop<{}>([{k}]) -> ();", if *is_arr { ARR } else { "felt252" }));
+        }
+    }
+    for (k, is_arr) in &used {
+        body.push(format!("store_temp<{}>([{k}]) -> ([{k}]);", if *is_arr { ARR } else { "felt252" }));
+    }
+    body.push(format!("return({});", used.iter().map(|(k, _)| format!("[{k}]")).collect::<Vec<_>>().join(", ")));
+    let text: String = body.join("\n").replace("ARM2", &arm2_at.to_string()).replace("MERGE", &merge_at.to_string());
+    let rets: Vec<&str> = used.iter().map(|(_, a)| if *a { ARR } else { "felt252" }).collect();
+    format!(
+        "type felt252 = felt252;\ntype {ARR} = {ARR};\ntype NonZero<felt252> = NonZero<felt252>;\n\nlibfunc felt252_is_zero = felt252_is_zero;\nlibfunc branch_align = branch_align;\nlibfunc jump = jump;\nlibfunc drop<NonZero<felt252>> = drop<NonZero<felt252>>;\nlibfunc drop<felt252> = drop<felt252>;\nlibfunc drop<{ARR}> = drop<{ARR}>;\nlibfunc dup<felt252> = dup<felt252>;\nlibfunc array_new<felt252> = array_new<felt252>;\nlibfunc store_temp<{ARR}> = store_temp<{ARR}>;\nlibfunc store_temp<felt252> = store_temp<felt252>;\n\n{text}\n\nd::f@0([0]: felt252, [1]: {ARR}, [2]: {ARR}, [3]: felt252) -> ({});\n",
+        rets.join(", ")
+    )
+}
+
 impl Prop for C15 {
     fn id(&self) -> &'static str {
         "C15"
@@ -54,7 +133,7 @@ impl Prop for C15 {
          independent worklist data-flow checker over the libfunc signatures: argument types, exact-once use, no \
          overwrite of live variables, branch arity, multi-branch targets on branch_align, equal live sets and \
          types at merges, return types with nothing left over, dup/drop only on types my own property table \
-         allows. Violation = accepted and checker rejects. Non-trivial = an accepted mutant that differs from its \
+         allows. Half of the proptest cases are generated diamonds: a branch on a felt252, two independently generated arms over array (not duplicatable) and felt252 variables (new, move into a new name, drop, dup), a merge and a tail that stores and returns a subset of the variables. Violation = accepted and checker rejects. Non-trivial = an accepted mutant that differs from its \
          origin; distinct = hash(origin, mutations)."
             .into()
     }
@@ -130,6 +209,29 @@ impl Prop for C15 {
         let cases = tier.pick(300, 5000);
         let corpus_ref = &corpus;
         ctx.run_shards(64, cases, |cc: &mut CaseCtx<'_>, ch: &mut Choices| {
+            if ch.chance(1, 2) {
+                // Generated diamond (independent arms, a merge, a tail using a subset of the variables).
+                let text = gen_diamond(ch);
+                let art = json!({"origin": "generated diamond", "sierra": text, "mutations": []});
+                cc.start(|| art.clone());
+                let Some(p) = sierra::parse(&text) else {
+                    cc.stats().count("diamonds_unparsable");
+                    return Verdict::Skip("unparsable");
+                };
+                cc.stats().eval();
+                return match judge(&p) {
+                    Ok(Some(true)) => {
+                        cc.stats().count("diamonds_accepted_and_well_formed");
+                        cc.stats().nontrivial(hash_str(&text));
+                        Verdict::Pass
+                    }
+                    Ok(_) => {
+                        cc.stats().count("diamonds_rejected");
+                        Verdict::Pass
+                    }
+                    Err((sig, what)) => Verdict::fail(sig, what, art),
+                };
+            }
             let item = &corpus_ref[ch.below(corpus_ref.len())];
             let k = 2 + ch.below(2);
             let mut p = item.program.clone();
